@@ -209,3 +209,192 @@ Theorem tracker_stale_records_refuted :
     files (st_runner (step (st_runner (step r k1)) k2)) = [[rec1; rec2]] /\ rec1 <> rec2.
 Proof. exact tracker_stale_counterexample. Qed.
 Print Assumptions tracker_stale_records_refuted.
+
+(* ======================================================================================================================
+   The model is the code.  The methods of BaseCircuitRunner (api/circuit_runner.py), BaseWavefunctionSimulator
+   (api/wavefunction_simulator.py) and MeasurementTrackingBackend (runners/trackers.py) are TRANSLATED from their source
+   on every run by tr/tr_runner.py into Gen/RunnerGen.v (state-passing Gallina: state of self in, state of self and
+   returned value or raised exception out; dynamic dispatch resolved per class by generated tables); the meaning of the
+   emitted building blocks is State/RunnerTrSupport.v.  The theorems below (proofs: State/RunnerGenProofs.v) state that
+   the generated methods compute exactly what the model functions of State/Runner.v compute - the functions all theorems
+   above are about.  [obj nc nj sd lg]: an initialised object with its two counters, the attribute seed and, as the
+   subclass's own state, the execution log (newest first).  [base_hooks over] / [sim_hooks ov]: the subclasses the model
+   describes (the instrumented ones of the correspondence harness), as values of the generated hook records.
+   [after x sd lg]: the model's result x = (runner, outcome, trace) read as (object, result) with the trace logged. *)
+Require Import Coq.Strings.String.
+Require Import OQ.State.RunnerTrSupport OQ.Gen.RunnerGen OQ.State.RunnerGenProofs.
+
+(* ---- BaseCircuitRunner *)
+Theorem generated_base_init_is_model : forall lg : list event,
+  BaseCircuitRunner___init___gen (runner_attrs_new lg) = (obj 0 0 None lg, Ok tt).
+Proof. exact base_init_spec. Qed.
+Print Assumptions generated_base_init_is_model.
+
+Theorem generated_counter_properties_are_model : forall H r sd lg,
+  BaseCircuitRunner_R_n_circuits_executed H (obj_of r sd lg) = (obj_of r sd lg, Ok (n_circuits r)) /\
+  BaseCircuitRunner_R_n_jobs_executed H (obj_of r sd lg) = (obj_of r sd lg, Ok (n_jobs r)).
+Proof. exact base_counters_spec. Qed.
+Print Assumptions generated_counter_properties_are_model.
+
+Theorem generated_run_and_measure_is_model : forall over nc nj sd lg c n,
+  BaseCircuitRunner_R_run_and_measure (base_hooks over) c n (obj nc nj sd lg)
+  = after (run_single (RBase over nc nj) c n) sd lg.
+Proof. exact base_run_spec. Qed.
+Print Assumptions generated_run_and_measure_is_model.
+
+(* the validation of run_batch_and_measure is the model's [validate], whatever _run_batch_and_measure the subclass has *)
+Theorem generated_batch_validation_is_model :
+  forall (I X : Type) (h : list circuit -> list Z -> M (runner_attrs I X) (list res)) cs s,
+  BaseCircuitRunner_run_batch_and_measure_gen h cs s
+  = match validate (List.length cs) (spec_of s) with
+    | None => raise E_ValueError
+    | Some ns => h cs ns
+    end.
+Proof. exact @batch_validation_spec. Qed.
+Print Assumptions generated_batch_validation_is_model.
+
+Theorem generated_default_batch_loop_is_model : forall over nc nj sd lg cs ns,
+  BaseCircuitRunner_R__run_batch_and_measure (base_hooks over) cs ns (obj nc nj sd lg)
+  = after (loop (RBase over nc nj) (combine cs ns)) sd lg.
+Proof. exact base_loop_spec. Qed.
+Print Assumptions generated_default_batch_loop_is_model.
+
+Theorem generated_run_batch_is_model : forall over nc nj sd lg cs s,
+  BaseCircuitRunner_R_run_batch_and_measure (base_hooks over) cs s (obj nc nj sd lg)
+  = after (run_batch (RBase over nc nj) cs (spec_of s)) sd lg.
+Proof. exact base_batch_spec. Qed.
+Print Assumptions generated_run_batch_is_model.
+
+Theorem generated_distribution_is_model : forall over nc nj sd lg c on,
+  BaseCircuitRunner_R_get_measurement_outcome_distribution (base_hooks over) c on (obj nc nj sd lg)
+  = (let '(r, o, tr) := dist (RBase over nc nj) c on in (obj_of r sd (rev tr ++ lg), dist_res_of o)).
+Proof. exact base_dist_spec. Qed.
+Print Assumptions generated_distribution_is_model.
+
+(* ---- BaseWavefunctionSimulator: any native-support predicate ([sim_pred ov]: the inherited one transformed by the
+   subclass), circuits on a non-negative register, an object whose __init__ has run (seed assigned) *)
+Theorem generated_simulator_init_is_model : forall seed (lg : list event),
+  BaseWavefunctionSimulator___init___gen seed (runner_attrs_new lg) = (obj 0 0 (Some seed) lg, Ok tt).
+Proof. exact sim_init_spec. Qed.
+Print Assumptions generated_simulator_init_is_model.
+
+Theorem generated_get_wavefunction_is_model : forall ov nc nj sd lg c, 0 <= cw c ->
+  BaseWavefunctionSimulator_R_get_wavefunction (sim_hooks ov) c None (obj nc nj sd lg)
+  = (let '(nc', nj', tr) := get_wavefunction (sim_pred ov) nc nj c in (obj nc' nj' sd (rev tr ++ lg), Ok (cw c))).
+Proof. exact sim_wavefunction_spec. Qed.
+Print Assumptions generated_get_wavefunction_is_model.
+
+Theorem generated_simulator_run_is_model : forall ov nc nj seed lg c n, 0 <= cw c ->
+  BaseWavefunctionSimulator_R_run_and_measure (sim_hooks ov) c n (obj nc nj (Some seed) lg)
+  = after (run_single (RSim (sim_pred ov) nc nj) c n) (Some seed) lg.
+Proof. exact sim_run_spec. Qed.
+Print Assumptions generated_simulator_run_is_model.
+
+Theorem generated_simulator_batch_is_model : forall ov nc nj seed lg cs s, Forall (fun c => 0 <= cw c) cs ->
+  BaseWavefunctionSimulator_R_run_batch_and_measure (sim_hooks ov) cs s (obj nc nj (Some seed) lg)
+  = after (run_batch (RSim (sim_pred ov) nc nj) cs (spec_of s)) (Some seed) lg.
+Proof. exact sim_batch_spec. Qed.
+Print Assumptions generated_simulator_batch_is_model.
+
+(* sampled distributions, and the exact distribution of a circuit without free symbols *)
+Theorem generated_simulator_distribution_is_model : forall ov nc nj seed lg c on,
+  0 <= cw c -> (on = None -> cfree c = false) ->
+  BaseWavefunctionSimulator_R_get_measurement_outcome_distribution (sim_hooks ov) c on (obj nc nj (Some seed) lg)
+  = (let '(r, o, tr) := dist (RSim (sim_pred ov) nc nj) c on in (obj_of r (Some seed) (rev tr ++ lg), dist_res_of o)).
+Proof. exact sim_dist_spec. Qed.
+Print Assumptions generated_simulator_distribution_is_model.
+
+(* the remaining inputs: the exact distribution of a circuit with free symbols.  Counters and log are the model's; the
+   model's outcome (TypeError from float() of a symbolic probability) is outside the shape abstraction of the support
+   file, where the generated method returns the key length *)
+Theorem generated_simulator_symbolic_distribution_outside_abstraction : forall ov nc nj seed lg c,
+  0 <= cw c -> cfree c = true ->
+  BaseWavefunctionSimulator_R_get_measurement_outcome_distribution (sim_hooks ov) c None (obj nc nj (Some seed) lg)
+  = (let '(r, o, tr) := dist (RSim (sim_pred ov) nc nj) c None in (obj_of r (Some seed) (rev tr ++ lg), Ok (cw c))) /\
+  snd (fst (dist (RSim (sim_pred ov) nc nj) c None)) = OErr TypeErr.
+Proof. exact sim_dist_symbolic_spec. Qed.
+Print Assumptions generated_simulator_symbolic_distribution_outside_abstraction.
+
+(* the public get_wavefunction call of [step] *)
+Theorem generated_wavefunction_step_is_model : forall ov nc nj sd lg c, 0 <= cw c ->
+  BaseWavefunctionSimulator_R_get_wavefunction (sim_hooks ov) c None (obj nc nj sd lg)
+  = (let '(r, o, tr) := step (RSim (sim_pred ov) nc nj) (Wavefn c) in
+     (obj_of r sd (rev tr ++ lg), match o with OWf w => Ok w | _ => Raise E_TypeError end)).
+Proof. exact sim_wavefn_step_spec. Qed.
+Print Assumptions generated_wavefunction_step_is_model.
+
+(* the inherited is_natively_supported: gate operations are native *)
+Theorem generated_default_predicate_is_model : sim_pred (fun q => q) = op_is_GateOperation.
+Proof. exact default_predicate_spec. Qed.
+Print Assumptions generated_default_predicate_is_model.
+
+(* ---- MeasurementTrackingBackend: simulation relative to the wrapped object.  [sim R lg m f conv]: whenever an object s
+   stands for the model runner r (R s r), running the generated method m on s gives an object that stands for the runner
+   the model function f returns, the same outcome (through conv) and the model's trace appended to the log lg.
+   [tracks I RI s r]: s is a tracker object whose counters, pending raw_data, file content (read back as the harness reads
+   it: rec_abs) and wrapped object stand for r = RTrack nc nj file pend ri.  Trackers nest: [tracks] is itself an R. *)
+Theorem generated_tracker_run_is_model :
+  forall (I : Type) (RI : I -> runner -> Prop) (lgI : I -> list event) inner_run inner_batch inner_dist c n,
+  sim RI lgI (inner_run c n) (fun r => run_single r c n) res_of ->
+  sim (tracks I RI) (lgT I lgI)
+      (MeasurementTrackingBackend_R_run_and_measure (tracker_hooks I inner_run inner_batch inner_dist) c n)
+      (fun r => run_single r c n) res_of.
+Proof. exact tracker_run_sim. Qed.
+Print Assumptions generated_tracker_run_is_model.
+
+Theorem generated_tracker_batch_is_model :
+  forall (I : Type) (RI : I -> runner -> Prop) (lgI : I -> list event) inner_run inner_batch inner_dist cs s,
+  sim RI lgI (inner_batch cs s) (fun r => run_batch r cs (spec_of s)) res_of ->
+  sim (tracks I RI) (lgT I lgI)
+      (MeasurementTrackingBackend_R_run_batch_and_measure (tracker_hooks I inner_run inner_batch inner_dist) cs s)
+      (fun r => run_batch r cs (spec_of s)) res_of.
+Proof. exact tracker_batch_sim. Qed.
+Print Assumptions generated_tracker_batch_is_model.
+
+Theorem generated_tracker_distribution_is_model :
+  forall (I : Type) (RI : I -> runner -> Prop) (lgI : I -> list event) inner_run inner_batch inner_dist c on,
+  sim RI lgI (inner_dist c on) (fun r => dist r c on) dist_res_of ->
+  sim (tracks I RI) (lgT I lgI)
+      (MeasurementTrackingBackend_R_get_measurement_outcome_distribution (tracker_hooks I inner_run inner_batch inner_dist) c on)
+      (fun r => dist r c on) dist_res_of.
+Proof. exact tracker_dist_sim. Qed.
+Print Assumptions generated_tracker_distribution_is_model.
+
+(* the hypotheses are met by the generated methods of the model's base-class runner: a tracker around it *)
+Theorem generated_tracker_over_base_is_model : forall over c n cs s on,
+  let H := tracker_hooks leaf (BaseCircuitRunner_R_run_and_measure (base_hooks over))
+                         (BaseCircuitRunner_R_run_batch_and_measure (base_hooks over))
+                         (BaseCircuitRunner_R_get_measurement_outcome_distribution (base_hooks over)) in
+  let T := tracks leaf (stands_base over) in
+  let L := lgT leaf a_ext in
+  sim T L (MeasurementTrackingBackend_R_run_and_measure H c n) (fun r => run_single r c n) res_of /\
+  sim T L (MeasurementTrackingBackend_R_run_batch_and_measure H cs s) (fun r => run_batch r cs (spec_of s)) res_of /\
+  sim T L (MeasurementTrackingBackend_R_get_measurement_outcome_distribution H c on) (fun r => dist r c on) dist_res_of.
+Proof. exact tracked_base_sim. Qed.
+Print Assumptions generated_tracker_over_base_is_model.
+
+(* the generated methods run: a simulator whose native kinds are 0..3, a batch of two circuits with per-circuit counts
+   (3 native segments and 4 jobs: the counters; the log is newest first) *)
+Example generated_simulator_batch_runs :
+  BaseWavefunctionSimulator_R_run_batch_and_measure (sim_hooks (fun _ k => k <? 4))
+    [mkC 2 [0; 1; 7; 7; 2] false false; mkC 1 [7] false false] (inr [3; 5]) (obj 0 0 (Some None) [])
+  = (obj 2 4 (Some None)
+         [ESeg false [7]; EWf (mkC 1 [7] false false);
+          ESeg true [2]; ESeg false [7; 7]; ESeg true [0; 1]; EWf (mkC 2 [0; 1; 7; 7; 2] false false)],
+     Ok [(3, 2); (5, 1)]).
+Proof. vm_compute. reflexivity. Qed.
+
+(* ... and a tracker around a base-class runner (surplus 2) on a batch whose second circuit holds a non-gate operation:
+   all three circuits were executed by the wrapped runner, the tracker raises, one record stays in raw_data (F28) *)
+Example generated_tracker_batch_runs :
+  let H := tracker_hooks leaf (BaseCircuitRunner_R_run_and_measure (base_hooks 2))
+                         (BaseCircuitRunner_R_run_batch_and_measure (base_hooks 2))
+                         (BaseCircuitRunner_R_get_measurement_outcome_distribution (base_hooks 2)) in
+  MeasurementTrackingBackend_R_run_batch_and_measure H
+    [mkC 3 [0] false true; mkC 1 [7] false false; mkC 0 [] false true] (inl 4)
+    (tobj leaf 0 0 None (Some false) (obj 0 0 None []) [] "RecBase" "raw.json" [])
+  = (tobj leaf 3 1 None (Some false)
+       (obj 3 3 None [ERun (mkC 0 [] false true) 4; ERun (mkC 1 [7] false false) 4; ERun (mkC 3 [0] false true) 4])
+       [jmeasurement "RecBase" (Some false) (mkC 3 [0] false true) (6, 3)] "RecBase" "raw.json" [],
+     Raise E_AttributeError).
+Proof. vm_compute. reflexivity. Qed.
